@@ -26,22 +26,56 @@
    every dispatched event kind is one the socket is registered for     dispatch_kind_registered (onRead, the send of the backlog, accept),
                                                                        write_dispatch_registered (onWrite), connect_dispatch_registered
    a failed read or write is followed by onClosed                      failed_io_followed_by_onClosed, loop_send_failure_closes_at_once
-   interrupt() makes the current or next run() return ...              interrupted_wait_is_last
+   interrupt() makes the current or next run() return ...              interrupted_wait_is_last (safety half: the next wait is the last action),
+                                                                       interrupt_makes_run_return, interrupt_reaches_wait (liveness half, round 4:
+                                                                       with an interrupt pending at the head of an iteration run() returns after the
+                                                                       buffered events have been served, one per iteration; with an empty buffer the
+                                                                       loop reaches its wait in the current iteration and returns), interrupt_makes_run_return_total
    ... which never returns otherwise                                   run_returns_only_after_interrupt
-   every ready registered socket is eventually dispatched              eventual_dispatch_partial_buffered, eventual_dispatch_partial_progress
-                                                                       (PARTIAL: see below)
+   every ready registered socket is eventually dispatched              eventual_dispatch (round 4; FULL UNDER THE STATED HYPOTHESES: fairness of the simulated
+                                                                       level-triggered epoll, written out as [reports it e g] on the epoll script; callbacks
+                                                                       that do not remove e or narrow its interest, [keeps_scripts]; a client e not suspended),
+                                                                       eventual_dispatch_from_wait (the tighter bound from an empty buffer), buffered_event_is_served
+                                                                       (an event already buffered at position p: within p+1 iterations), eventual_dispatch_total
+                                                                       (for every sufficiently large fuel, environment hypothesis Env);
+                                                                       supporting: eventual_dispatch_partial_buffered, eventual_dispatch_partial_progress
+   (termination of one iteration - needed by the two liveness clauses) timer_phase_terminates (explicit fuel bound tlag+1), closing_phase_terminates (explicit
+                                                                       fuel bound cmeas+1), more_fuel_same_run, enough_fuel_exists, run_always_returns,
+                                                                       environment_hypothesis_reachable
 
-   PARTIAL / not proved here:
-   * eventual dispatch (liveness) is proved only up to the kernel: a reported registered socket enters the buffer
-     (eventual_dispatch_partial_buffered); in every iteration of the loop the timer and closing phases and the dispatched
-     callbacks only delete entries from the buffer or shrink them in place (order kept), and Poll::poll serves the head of
-     what is left without asking the kernel (eventual_dispatch_partial_progress): a buffered entry that is not deleted (socket
-     removed / interest withdrawn) strictly moves towards the head and is served.  Assumed: the (level-triggered) epoll keeps
-     reporting a ready socket and the event descriptor; at most 63 sockets per epoll_wait.  Not proved: termination of the
-     timer and closing phases (needs intervals > 0 and finite callback scripts) - in the model a non-terminating run ends as
-     [stuck]; that run_loop ends only by EvRunRet or by running out of fuel is the supporting lemma run_returns_or_stuck.
-   * "interrupt() makes the current or next run() return" is the safety half: once an interrupt is pending the next wait
-     of the loop is its last action before run() returns.  That the loop reaches that wait is the termination question above.
+   Round 4 - what the liveness theorems say and assume (definitions in ServerLoopTerm / ServerLoopKeep / ServerLoopLive / ServerLoopFuel):
+   * [Env s] (boolean [envb]): every pooled timer and every timer a callback script may still create has an interval > 0, and no
+     callback sets the clock back (AAdv d with d >= 0).  Callback scripts are finite by construction (lists, an entry is consumed by
+     the invocation that runs it, none is created inside run()).  Env holds in every state reached by operations that respect it
+     (environment_hypothesis_reachable).
+   * timer phase: measure [tlag now s] = over the queue entries due at now: 1 + (now - due) / interval (the default entry counts 1).
+     Each pass of the loop lowers it; what onActivated does (create timers - due after now -, remove timers, anything else) does not
+     raise it.  fuel > tlag: the phase is not cut off and leaves nothing due (timer_phase_terminates; the bound is attained:
+     ex_timer_phase_bound_tight).  NOTE the measure is not "number of timers due": a timer that is several intervals late fires
+     once per missed interval in the same phase (catch-up), exactly as the code does.
+   * closing phase: measure [cmeas s] = |closing set| + number of write/read actions left in the callback scripts (only a failing
+     write or read inside a callback adds a client to the set).  fuel > cmeas: not cut off, the set is empty afterwards
+     (closing_phase_terminates; no hypothesis at all).
+   * fuel: a run that ends with stuck = false was never cut off, more fuel gives the same run (more_fuel_same_run); under Env enough
+     fuel exists for every state and every finite epoll script (enough_fuel_exists: every iteration consumes an epoll item or
+     serves a buffered event; when the script has run out the model's foreign interrupt ends the run), so run() always comes back
+     in the model (run_always_returns).  The fuel bound of a whole run is existential, not explicit (an explicit one would have
+     to bound the catch-up work of all later iterations); the bounds of the two phases are explicit.
+   * eventual_dispatch: [KS e g None s] = e is registered with an interest containing g, a client e is not suspended, and no
+     callback script entry removes e or suspends it (writes, reads, resumes on e are allowed: they only widen its interest);
+     [reports it e g] = the next epoll item reports e, with native bits that mean readiness for every interest containing g
+     ([ready_for], decided over the 16 interests).  Conclusion [Reach e n final s]: the log of the run continues the log of s
+     with an event of e's dispatch (onRead/onWrite/onClosed entered, the send of its backlog, accept, the SO_ERROR query) - or
+     with EvRunRet (an interrupt ended the run first) - after at most n iterations (EvNow events), n = events already buffered +
+     1 + length of the reported list (from an empty buffer: 1 + length of the reported list - the "+1" is the wake-up that is
+     consumed without serving anything when the event-descriptor count is positive but no interrupt is pending).
+     Only the first epoll item is constrained: once reported and buffered, e stays buffered until it is served.
+   * interrupt: [IP s] = the interrupted flag is set and the event-descriptor count is positive (what Server::interrupt establishes:
+     interrupt_sets_pending in ServerLoopLive).  A buffered event is served before the loop looks at the event descriptor, so run()
+     returns after at most |buffer| + 1 iterations, not necessarily in the current one; with an empty buffer it is the current one.
+   Still not proved: nothing about real time (the clock is scripted) and nothing about the real kernel keeping its side of [reports]
+   (level-triggered epoll is the ASSUMPTION the theorem makes explicit; the 64-event array of epoll_wait is outside the model).
+   Other notes (unchanged from round 2):
    * equal due times: activations are in order of due time; that timers with EQUAL due times fire in insertion order is
      validated by the correspondence check only.
    * the model mirrors the code after the repairs fixes/C14/01 (a client removed from inside the onAccepted/onConnected that
@@ -51,7 +85,8 @@
    * timer_wait_not_past_due is relative to the clock value the loop sampled at the start of the iteration: time spent inside
      callbacks of that iteration is not accounted for (neither by the code nor by the clause).  *)
 From Coq Require Import ZArith List Bool.
-From ServerLoop Require Import ServerLoopSpec ServerLoopModel ServerLoopInv ServerLoopCb ServerLoopBuf ServerLoopCplC ServerLoopDerived.
+From ServerLoop Require Import ServerLoopSpec ServerLoopModel ServerLoopInv ServerLoopCb ServerLoopBuf ServerLoopCplC ServerLoopDerived
+  ServerLoopTerm ServerLoopLiveBase ServerLoopKeep ServerLoopLive ServerLoopFuel.
 Import ListNotations.
 Local Open Scope Z_scope.
 
@@ -154,6 +189,86 @@ Theorem pooled_clients_have_callback_objects : forall fuel ops j c,
 Proof. exact pooled_clients_ready. Qed.
 Print Assumptions pooled_clients_have_callback_objects.
 
+(* ---------- round 4: termination of an iteration, eventual dispatch, interrupt liveness ---------- *)
+Theorem timer_phase_terminates : forall fuel now s,
+  SInv s -> Env s -> now <= clk s -> (tlag now s < fuel)%nat ->
+  stuck (timer_phase fuel now s) = stuck s /\ tlag now (timer_phase fuel now s) = 0%nat.
+Proof. exact timer_phase_terminates_short. Qed.
+Print Assumptions timer_phase_terminates.
+
+Theorem closing_phase_terminates : forall fuel s,
+  (cmeas s < fuel)%nat -> stuck (closing_phase fuel s) = stuck s /\ closing (closing_phase fuel s) = [].
+Proof. exact closing_phase_terminates_l. Qed.
+Print Assumptions closing_phase_terminates.
+
+Theorem environment_hypothesis_reachable : forall fuel ops, forallb op_okb ops = true -> Env (steps fuel init ops).
+Proof. exact Env_reachable_l. Qed.
+Print Assumptions environment_hypothesis_reachable.
+
+Theorem more_fuel_same_run : forall f f' items s,
+  (f <= f')%nat -> stuck (run_loop f items s) = false -> run_loop f' items s = run_loop f items s.
+Proof. exact run_loop_mono_l. Qed.
+Print Assumptions more_fuel_same_run.
+
+Theorem enough_fuel_exists : forall items s, SInv s -> Env s -> stuck s = false ->
+  exists F, forall fuel, (F <= fuel)%nat -> stuck (run_loop fuel items s) = false.
+Proof. exact enough_fuel_l. Qed.
+Print Assumptions enough_fuel_exists.
+
+Theorem run_always_returns : forall items s, SInv s -> Env s -> stuck s = false ->
+  exists F, forall fuel, (F <= fuel)%nat -> exists tr', trace (run_loop fuel items s) = EvRunRet :: tr'.
+Proof. exact run_returns_total_l. Qed.
+Print Assumptions run_always_returns.
+
+Theorem eventual_dispatch : forall e g it rest fuel s,
+  SInv s -> CbEx None s -> KS e g None s -> reports it e g ->
+  stuck (run_loop fuel (it :: rest) s) = false ->
+  Reach e (length (selected s) + S (length (ep_ready it))) (run_loop fuel (it :: rest) s) s.
+Proof. exact eventual_dispatch_any_l. Qed.
+Print Assumptions eventual_dispatch.
+
+Theorem eventual_dispatch_from_wait : forall e g fuel it rest s,
+  SInv s -> CbEx None s -> KS e g None s -> selected s = [] -> reports it e g ->
+  stuck (run_loop fuel (it :: rest) s) = false ->
+  Reach e (S (length (ep_ready it))) (run_loop fuel (it :: rest) s) s.
+Proof. exact eventual_dispatch_l. Qed.
+Print Assumptions eventual_dispatch_from_wait.
+
+Theorem eventual_dispatch_total : forall e g it rest s,
+  SInv s -> CbEx None s -> Env s -> stuck s = false -> KS e g None s -> reports it e g ->
+  exists F, forall fuel, (F <= fuel)%nat ->
+    stuck (run_loop fuel (it :: rest) s) = false /\
+    Reach e (length (selected s) + S (length (ep_ready it))) (run_loop fuel (it :: rest) s) s.
+Proof. exact eventual_dispatch_total_l. Qed.
+Print Assumptions eventual_dispatch_total.
+
+(* an event that is already buffered (flags f, not empty) is served at the latest when the events in front of it have been served *)
+Theorem buffered_event_is_served : forall e g f, fl_is_none f = false -> forall fuel items s,
+  SInv s -> CbEx None s -> KS e g (Some f) s -> stuck (run_loop fuel items s) = false ->
+  Reach e (S (pos e (skeys s))) (run_loop fuel items s) s.
+Proof. exact drain. Qed.
+Print Assumptions buffered_event_is_served.
+
+Theorem interrupt_makes_run_return : forall fuel items s,
+  SInv s -> IP s -> stuck (run_loop fuel items s) = false ->
+  exists mid, trace (run_loop fuel items s) = EvRunRet :: mid ++ trace s /\ (count_now mid <= S (length (selected s)))%nat.
+Proof. exact interrupt_returns_l. Qed.
+Print Assumptions interrupt_makes_run_return.
+
+Theorem interrupt_reaches_wait : forall fuel items s,
+  SInv s -> IP s -> selected s = [] -> stuck (run_loop fuel items s) = false ->
+  exists t q l0, trace (run_loop fuel items s) = EvRunRet :: q ++ EvWait t :: l0 ++ trace s /\
+                 forallb quiet q = true /\ count_now l0 = 1%nat.
+Proof. exact interrupt_reaches_wait_l. Qed.
+Print Assumptions interrupt_reaches_wait.
+
+Theorem interrupt_makes_run_return_total : forall items s,
+  SInv s -> Env s -> stuck s = false -> IP s ->
+  exists F, forall fuel, (F <= fuel)%nat ->
+    exists mid, trace (run_loop fuel items s) = EvRunRet :: mid ++ trace s /\ (count_now mid <= S (length (selected s)))%nat.
+Proof. exact interrupt_returns_total_l. Qed.
+Print Assumptions interrupt_makes_run_return_total.
+
 (* ---------- non-vacuity: a concrete history whose log contains every kind of event the theorems speak about ---------- *)
 Definition nb (i o r h e : bool) := mkNb i o r h e.
 Definition demo : list op :=
@@ -213,3 +328,113 @@ Example demo_buffer_nonempty_midway :
                   (steps 10 init [OAct (APair 1); OAct (APair 2)]))) =
   [(Cl 1, mkFl true false false false); (Cl 2, mkFl true false false false)].
 Proof. vm_compute. reflexivity. Qed.
+
+(* ---------- round 4, non-vacuity ---------- *)
+(* the fuel of the example runs is a named constant: tactics normalise fixpoints applied to a literal successor *)
+Definition ex_fuel : nat := 10.
+(* timer phase: timer 1 (interval 2) is 5 activations behind at now = 10, timer 2 (interval 3) is 3 behind, the default entry 1:
+   tlag = 9, fuel 10 suffices and fuel 9 does not (the bound of timer_phase_terminates is attained); afterwards nothing is due *)
+Definition lag_ops := [OAct (ATimer 1 2); OAct (ATimer 2 3); OAct (AAdv 10)].
+Definition lag_s := steps 5 init lag_ops.
+Example ex_timer_phase_premises : (envb lag_s, clk lag_s, tlag 10 lag_s, stuck lag_s) = (true, 10, 9%nat, false).
+Proof. vm_compute. reflexivity. Qed.
+Example ex_timer_phase_bound_tight :
+  (stuck (timer_phase 10 10 lag_s), stuck (timer_phase 9 10 lag_s), queue (timer_phase 10 10 lag_s)) =
+  (false, true, [(12, Some 2); (12, Some 1); (300010, None)]).
+Proof. vm_compute. reflexivity. Qed.
+Example ex_timer_phase_terminates : stuck (timer_phase 10 10 lag_s) = stuck lag_s /\ tlag 10 (timer_phase 10 10 lag_s) = 0%nat.
+Proof.
+  apply timer_phase_terminates; [apply structural_invariant_reachable | vm_compute; reflexivity | vm_compute; discriminate | vm_compute; apply le_n].
+Qed.
+(* the onActivated callback of timer 2 creates a timer, removes timer 1 and lets time pass: the measure only goes down *)
+Definition lag_ops2 := [OAct (ATimer 1 2); OAct (ATimer 2 3); OOn (mkSe (Tm 2) SAct 0 false [ATimer 3 1; ARmTimer 1; AAdv 4]); OAct (AAdv 10)].
+Example ex_timer_phase_with_callbacks :
+  let s := steps 5 init lag_ops2 in
+  (envb s, tlag 10 s, stuck (timer_phase 10 10 s), queue (timer_phase 10 10 s)) = (true, 9%nat, false, [(11, Some 3); (12, Some 2); (300010, None)]).
+Proof. vm_compute. reflexivity. Qed.
+
+(* closing phase: client 1 is in the closing set; its onClosed reads from client 2 (fails: client 2 joins the set) and from client 1
+   again (fails: client 1 joins again); cmeas = 1 + 2 = 3: fuel 4 suffices and fuel 3 does not *)
+Definition cl_ops := [OAct (APair 1); OAct (APair 2); ORecvq [REof; RErr; REof]; OAct (ARead 1);
+   OOn (mkSe (Cl 1) (SCb KClosed) 0 false [ARead 2; ARead 1]); OOn (mkSe (Cl 2) (SCb KClosed) 0 false [ARmClient 2])].
+Definition cl_s := steps 5 init cl_ops.
+Example ex_closing_phase_bound_tight :
+  (cmeas cl_s, closing cl_s, stuck (closing_phase 4 cl_s), stuck (closing_phase 3 cl_s), closing (closing_phase 4 cl_s)) = (3%nat, [1], false, true, []).
+Proof. vm_compute. reflexivity. Qed.
+
+(* eventual dispatch: three clients are reported readable in one epoll_wait; the onRead of client 1 writes to client 3 (backlog: its
+   interest is widened to read+write while its event is buffered) and removes client 2 (whose buffered event is pruned); client 3 is
+   served in the second iteration; the theorem's bound is 0 + 1 + 3 *)
+Definition rd := nb true false false false false.
+Definition ed_ops := [OAct (ATimer 1 5); OAct (APair 1); OAct (APair 2); OAct (APair 3);
+   OOn (mkSe (Cl 1) (SCb KRead) 0 false [ARead 1; AWrite 3 5; ARmClient 2]); OSendq [SSent 2];
+   OOn (mkSe (Cl 3) (SCb KRead) 0 false [ARead 3])].
+Definition ed_s := log EvRunEnter (steps 5 init ed_ops).
+Definition ed_it := mkEp 5 [(Cl 1, rd); (Cl 2, rd); (Cl 3, rd)].
+Example ed_KS : KS (Cl 3) fl_R None ed_s.
+Proof.
+  split; [split; [split|exact I]|vm_compute; reflexivity].
+  - exists fl_R. split; vm_compute; reflexivity.
+  - exists (mkCl true 0 false false). split; vm_compute; reflexivity.
+Qed.
+Example ed_reports : reports ed_it (Cl 3) fl_R.
+Proof.
+  split; [vm_compute; tauto|]. intros n [H|[H|[H|[]]]]; inversion H; subst; vm_compute; reflexivity.
+Qed.
+Example ex_eventual_dispatch : Reach (Cl 3) 4 (run_loop ex_fuel [ed_it; mkEp 0 []] ed_s) ed_s.
+Proof.
+  eapply Reach_mono;
+    [apply (eventual_dispatch (Cl 3) fl_R ed_it [mkEp 0 []] ex_fuel ed_s);
+      [apply SInv_log; apply structural_invariant_reachable
+      | apply CbEx_log; apply (CbEx_reachable 5 ed_ops)
+      | exact ed_KS | exact ed_reports | vm_compute; reflexivity]
+    | vm_compute; apply le_n].
+Qed.
+Example ex_eventual_dispatch_log :
+  firstn 17 (skipn 8 (rev (trace (run_loop ex_fuel [ed_it; mkEp 0 []] ed_s)))) =
+  [EvNow 0; EvSel []; EvWait 5; EvItem false; EvCb (Cl 1) KRead 5; EvRecv 1 (-1); EvRead 1 false; EvSend 3 5 2 false;
+   EvCtl CMod (Cl 3) 8213; EvWrote 3 true 3; EvCtl CDel (Cl 2) 0; EvRemoved (Cl 2);
+   EvNow 5; EvSel [(Cl 3, 1)]; EvAct 1 5 5; EvCb (Cl 3) KRead 5; EvRecv 3 (-1)].
+Proof. vm_compute. reflexivity. Qed.
+Example ex_eventual_dispatch_total :
+  exists F, forall fuel, (F <= fuel)%nat ->
+    stuck (run_loop fuel [ed_it; mkEp 0 []] ed_s) = false /\
+    Reach (Cl 3) (length (selected ed_s) + S (length (ep_ready ed_it))) (run_loop fuel [ed_it; mkEp 0 []] ed_s) ed_s.
+Proof.
+  apply (eventual_dispatch_total (Cl 3) fl_R ed_it [mkEp 0 []] ed_s);
+    [apply SInv_log; apply structural_invariant_reachable
+    | apply CbEx_log; apply (CbEx_reachable 5 ed_ops)
+    | vm_compute; reflexivity | vm_compute; reflexivity | exact ed_KS | exact ed_reports].
+Qed.
+
+(* interrupt: a first run() is interrupted while client 1's event is absorbed (it stays buffered), interrupt() is called again: the
+   second run() serves the buffered event, reaches its wait in the next iteration and returns - 2 iterations = |buffer| + 1 *)
+Definition in_ops := [OAct (APair 1); OAct AInterrupt; ORun [mkEp 0 [(Cl 1, rd)]]; OAct AInterrupt].
+Definition in_s := log EvRunEnter (steps 5 init in_ops).
+Example ex_interrupt_premises : (intr in_s, evcount in_s, sel_view (selected in_s), stuck (run_loop ex_fuel [mkEp 7 []] in_s)) = (true, 1, [(Cl 1, 1)], false).
+Proof. vm_compute. reflexivity. Qed.
+Example ex_interrupt_makes_run_return :
+  exists mid, trace (run_loop ex_fuel [mkEp 7 []] in_s) = EvRunRet :: mid ++ trace in_s /\ (count_now mid <= S (length (selected in_s)))%nat.
+Proof.
+  apply (interrupt_makes_run_return ex_fuel [mkEp 7 []] in_s);
+    [apply SInv_log; apply structural_invariant_reachable | split; vm_compute; reflexivity | vm_compute; reflexivity].
+Qed.
+Example ex_interrupt_log :
+  firstn 9 (trace (run_loop ex_fuel [mkEp 7 []] in_s)) =
+  [EvRunRet; EvItem false; EvWait 300000; EvSel []; EvNow 0; EvCb (Cl 1) KRead 0; EvSel [(Cl 1, 1)]; EvNow 0; EvRunEnter].
+Proof. vm_compute. reflexivity. Qed.
+(* interrupt() before run() with nothing buffered: the loop reaches its wait in the first iteration and returns *)
+Example ex_interrupt_reaches_wait :
+  let s := log EvRunEnter (steps 5 init [OAct (ATimer 1 5); OAct AInterrupt]) in
+  exists t q l0, trace (run_loop ex_fuel [mkEp 7 []] s) = EvRunRet :: q ++ EvWait t :: l0 ++ trace s /\ forallb quiet q = true /\ count_now l0 = 1%nat.
+Proof.
+  cbn zeta. apply interrupt_reaches_wait;
+    [apply SInv_log; apply structural_invariant_reachable | split; vm_compute; reflexivity | vm_compute; reflexivity | vm_compute; reflexivity].
+Qed.
+Example ex_environment_reachable : Env (steps 7 init (ed_ops ++ [ORun [ed_it]])).
+Proof. apply environment_hypothesis_reachable. vm_compute. reflexivity. Qed.
+Example ex_run_always_returns :
+  exists F, forall fuel, (F <= fuel)%nat -> exists tr', trace (run_loop fuel [ed_it; mkEp 0 []] ed_s) = EvRunRet :: tr'.
+Proof.
+  apply run_always_returns; [apply SInv_log; apply structural_invariant_reachable | vm_compute; reflexivity | vm_compute; reflexivity].
+Qed.
